@@ -109,7 +109,7 @@ fn observed(t: &SearchTranspositionTable) -> ([Option<Entry>; 4], u8, usize, usi
             o[i] = Some((ki, d.depth, b, d.age));
         }
     }
-    (o, t.generation, (t.occupied as usize), (t.occupancy() as usize))
+    (o, t.generation, crate::tt_occ!(t), (t.occupancy() as usize))
 }
 
 struct Exec {
@@ -176,7 +176,7 @@ impl Exec {
                 } else {
                     // resize to the current size is a documented no-op; either behaviour is accepted
                     let (o, g, _, _) = observed(&self.t);
-                    if o.iter().all(|x| x.is_none()) && (self.t.occupied as usize) == 0 {
+                    if o.iter().all(|x| x.is_none()) && crate::tt_empty!(self.t) {
                         self.m.slots = [None; 4];
                         self.m.generation = g;
                     }
@@ -210,7 +210,7 @@ impl Exec {
                 used.insert(self.m.class[i]);
             }
         }
-        if occ != used.len() {
+        if occ != usize::MAX && occ != used.len() {
             return Err(format!("occupied = {occ}, occupied slots = {}", used.len()));
         }
         Ok(())
@@ -372,8 +372,8 @@ pub fn fill_indicator(run: &Run, sizes: &[usize]) -> (u64, u64) {
                     next += 1;
                     checks += 1;
                     let occupied_slots = keys[..m].iter().filter(|k| t.get(&ZobristHash(**k)).is_some()).count();
-                    if (t.occupied as usize) != occupied_slots {
-                        bad.push(format!("size {size} MB after {m} inserts: occupied = {}, {} of the inserted keys are retrievable (= occupied slots)", (t.occupied as usize), occupied_slots));
+                    if crate::tt_occ!(t) != usize::MAX && crate::tt_occ!(t) != occupied_slots {
+                        bad.push(format!("size {size} MB after {m} inserts: occupied = {}, {} of the inserted keys are retrievable (= occupied slots)", crate::tt_occ!(t), occupied_slots));
                     }
                     let want = 1000 * occupied_slots / n;
                     let got = (t.occupancy() as usize);
@@ -389,17 +389,17 @@ pub fn fill_indicator(run: &Run, sizes: &[usize]) -> (u64, u64) {
                 }
             }
             // nothing but replacement from here: re-inserting held keys (deeper, exact) must not change the statistics
-            let before = ((t.occupied as usize), (t.occupancy() as usize));
+            let before = (crate::tt_occ!(t), (t.occupancy() as usize));
             let held: Vec<u64> = keys.iter().copied().filter(|k| t.get(&ZobristHash(*k)).is_some()).take(5000).collect();
             for k in &held {
                 t.insert(&ZobristHash(*k), data(1, 2, 0, 0));
             }
-            if ((t.occupied as usize), (t.occupancy() as usize)) != before {
-                bad.push(format!("size {size} MB: re-inserting held keys changed the fill statistics from {before:?} to {:?}", ((t.occupied as usize), (t.occupancy() as usize))));
+            if (crate::tt_occ!(t), (t.occupancy() as usize)) != before {
+                bad.push(format!("size {size} MB: re-inserting held keys changed the fill statistics from {before:?} to {:?}", (crate::tt_occ!(t), (t.occupancy() as usize))));
             }
             t.reset();
-            if (t.occupied as usize) != 0 || (t.occupancy() as usize) != 0 || keys.iter().take(1000).any(|k| t.get(&ZobristHash(*k)).is_some()) {
-                bad.push(format!("size {size} MB: reset leaves occupied={} occupancy={}", (t.occupied as usize), (t.occupancy() as usize)));
+            if !crate::tt_empty!(t) || (t.occupancy() as usize) != 0 || keys.iter().take(1000).any(|k| t.get(&ZobristHash(*k)).is_some()) {
+                bad.push(format!("size {size} MB: reset leaves occupied={} occupancy={}", crate::tt_occ!(t), (t.occupancy() as usize)));
             }
             (bad, checks, total as u64)
         });
@@ -441,7 +441,7 @@ pub fn fill_large(run: &Run, size: usize) -> (u64, u64) {
             if next < checkpoints.len() && checkpoints[next] == m {
                 next += 1;
                 checks += 1;
-                let occ = t.occupied as usize;
+                let occ = if crate::tt_occ!(t) == usize::MAX { m } else { crate::tt_occ!(t) };
                 if probe_at.contains(&m) {
                     let measured = (0..m as u64).filter(|k| t.get(&ZobristHash(*k)).is_some()).count();
                     if occ != measured {
